@@ -48,6 +48,7 @@ type sCase struct {
 	Cls   string       `json:"cls"`
 	Pts   [][][2]int64 `json:"pts"`
 	Ipts  [][][2]int64 `json:"ipts"` // integer points (integer scalar types)
+	Spts  [][][2]int64 `json:"spts"` // IEEE special values (tokens, see pointOf)
 	Exp   sExp         `json:"exp"`
 	// explicit instantiation (replay of one stored violation)
 	Only *sInst `json:"only,omitempty"`
@@ -279,6 +280,14 @@ type jetObs struct {
 }
 
 func numStr(x float64) string { return fmt.Sprintf("%.17g", x) }
+
+func numStrs(x []float64) []string {
+	r := make([]string, len(x))
+	for i := range x {
+		r[i] = numStr(x[i])
+	}
+	return r
+}
 
 func (o jetObs) MarshalJSON() ([]byte, error) {
 	g := make([]string, len(o.Grad))
@@ -648,12 +657,99 @@ func judgeJet(c *sCase, typ string, x []float64, o jetObs) (fails []slotFail, de
 
 // ---- the check of one scalar case -------------------------------------------------
 
-func pointOf(p [][2]int64) []float64 {
+// pointOf decodes a point; a coordinate [k, 0] is a token of spec/Aliasing.tla (SpecialVals):
+// 1 +Inf, -1 -Inf, 0 NaN, 2 / -2 the extreme finite values of the type, 3 its smallest positive
+// value; [0, -1] is negative zero.
+func pointOf(p [][2]int64, typ string) []float64 {
 	x := make([]float64, len(p))
+	big, tiny := math.MaxFloat64, math.SmallestNonzeroFloat64
+	if typ == "Real32" {
+		big, tiny = math.MaxFloat32, math.SmallestNonzeroFloat32
+	}
 	for i := range p {
-		x[i] = float64(p[i][0]) / float64(p[i][1])
+		switch {
+		case p[i][1] == 0:
+			switch p[i][0] {
+			case 1:
+				x[i] = math.Inf(1)
+			case -1:
+				x[i] = math.Inf(-1)
+			case 0:
+				x[i] = math.NaN()
+			case 2:
+				x[i] = big
+			case -2:
+				x[i] = -big
+			case 3:
+				x[i] = tiny
+			default:
+				vh.Fatal("unknown special value token", p[i][0])
+			}
+		case p[i][1] == -1 && p[i][0] == 0:
+			x[i] = math.Copysign(0, -1)
+		default:
+			x[i] = float64(p[i][0]) / float64(p[i][1])
+		}
 	}
 	return x
+}
+
+// sameValues: every slot read through the API agrees (same IEEE class, same number); the stored
+// order / N are representation.
+func (o jetObs) sameValues(p jetObs) bool {
+	if (o.Panic != "") != (p.Panic != "") {
+		return false
+	}
+	if o.Panic != "" {
+		return true
+	}
+	if !sameFloat(o.Val, p.Val) {
+		return false
+	}
+	for i := range o.Grad {
+		if !sameFloat(o.Grad[i], p.Grad[i]) {
+			return false
+		}
+		for j := range o.Hess[i] {
+			if !sameFloat(o.Hess[i][j], p.Hess[i][j]) {
+				return false
+			}
+		}
+	}
+	return true
+}
+
+// unconstrainedDiffers looks at the slots for which the terms of the contract give no finite
+// number at this point (special values, singular points, ties): there the aliased receiver must
+// hold exactly what the fresh receiver holds.  Returns the first such slot that differs.
+func unconstrainedDiffers(c *sCase, typ string, x []float64, al, fr jetObs) *slotFail {
+	if (al.Panic != "") != (fr.Panic != "") {
+		return &slotFail{What: "panic"}
+	}
+	if al.Panic != "" {
+		return nil
+	}
+	skip := func(t *exprlib.Term) bool {
+		out, _ := compareTerm(t, x, typ, 0)
+		return out == cmpSkip
+	}
+	diff := func(what string, i, j int, a, f float64) *slotFail {
+		return &slotFail{What: what, I: i, J: j, Info: cmpInfo{Expected: f, Observed: a}}
+	}
+	if skip(c.val) && !sameFloat(al.Val, fr.Val) {
+		return diff("value_differs_from_fresh", 0, 0, al.Val, fr.Val)
+	}
+	for i := 0; i < c.N; i++ {
+		if c.Exp.Ord >= 1 && skip(c.grad[i]) && !sameFloat(al.Grad[i], fr.Grad[i]) {
+			return diff("gradient_differs_from_fresh", i, 0, al.Grad[i], fr.Grad[i])
+		}
+		for j := 0; j < c.N; j++ {
+			if c.Exp.Ord >= 2 && skip(c.hess[i][j]) && !sameFloat(al.Hess[i][j], fr.Hess[i][j]) {
+				return diff("hessian_differs_from_fresh", i, j, al.Hess[i][j], fr.Hess[i][j])
+			}
+		}
+	}
+	return nil
 }
 
 func hasKind(c *sCase, kinds ...string) bool {
@@ -713,16 +809,17 @@ func scalarCase(c *sCase, line []byte, out *vh.Out, st *stats) {
 					continue
 				}
 			}
-			pts := c.Pts
+			pts := append(append([][][2]int64{}, c.Pts...), c.Spts...)
 			if isIntType(typ) {
 				pts = c.Ipts
 			}
 			for pi, p := range pts {
+				special := !isIntType(typ) && pi >= len(c.Pts)
 				in := sInst{Type: typ, Mode: mode, Point: pi}
 				if c.Only != nil && *c.Only != in {
 					continue
 				}
-				x0 := pointOf(p)
+				x0 := pointOf(p, typ)
 				al := execute(c, in, x0, true)
 				fr := execute(c, in, x0, false)
 				if al.harness != "" || fr.harness != "" {
@@ -743,11 +840,14 @@ func scalarCase(c *sCase, line []byte, out *vh.Out, st *stats) {
 						st.mixedOrder++
 					}
 					noteBranch(st, c, al.x)
+					if special {
+						st.specialExec += 2
+					}
 				})
 				same := al.obs.same(fr.obs)
 				detail := func(af, ff []slotFail) vh.M {
-					return vh.M{"case": json.RawMessage(line), "only": in, "pattern": pat, "kinds": kindsName(c), "x": al.x[:c.N],
-						"params": al.x[paramBase:], "failures": af, "aliased": al.obs, "fresh": fr.obs, "fresh_failures": ff}
+					return vh.M{"case": json.RawMessage(line), "only": in, "pattern": pat, "kinds": kindsName(c), "x": numStrs(al.x[:c.N]),
+						"params": numStrs(al.x[paramBase:]), "failures": af, "aliased": al.obs, "fresh": fr.obs, "fresh_failures": ff}
 				}
 				if isIntType(typ) {
 					// integer types truncate after every internal step: the demanded value is what a fresh
@@ -777,10 +877,19 @@ func scalarCase(c *sCase, line []byte, out *vh.Out, st *stats) {
 						st.skippedUndefined++
 					}
 				})
-				if !adef || !fdef {
-					if !same {
-						st.add(func() { st.undefinedDiffers[c.Op+" "+pat]++ })
+				// slots the terms do not constrain at this point: aliased must equal fresh
+				if !al.obs.sameValues(fr.obs) {
+					if d := unconstrainedDiffers(c, typ, al.x, al.obs, fr.obs); d != nil {
+						if c.Cls == "info" {
+							st.add(func() { st.undefinedDiffers[c.Op+" "+pat]++ })
+						} else {
+							sig := vh.M{"engine": "alias", "fam": "scalar", "op": c.Op, "pattern": pat, "what": d.What, "type": typ, "mode": mode}
+							report(out, st, sig, detail([]slotFail{*d}, ff))
+						}
+						continue
 					}
+				}
+				if !adef || !fdef {
 					continue
 				}
 				if len(af) == 0 {
